@@ -48,6 +48,19 @@ CHECKS["C18"] = dict(
     note="Observation is through getters, Validate class, CBOR/JSON bytes and Verify verdicts, not reflection: unobservable internal changes are not reported. Trusts the observation function and the deterministic signing wrappers.",
     ref="DESIGN.md §4 C18")
 
+CHECKS["C05"] = dict(
+    engine="W-DEC",
+    technique=TECH + "invariant 'the receiving actor never panics' over channel / Byzantine-sender faults on real messages delivered to all 29 decode entry points, with truncation-at-every-offset and every-head-byte sweeps; one child process per trace",
+    text="Seeded exploration of the receiving side: real COSE / CBOR / JSON / extension-profile / component-list / helper-struct messages are damaged in flight (bit flips, byte edits, truncation, padding, inflated lengths, concatenation, header surgery, deep nesting) or structurally mutated at any tree node and re-signed by a Byzantine attester, and every delivered byte string is handed to all 29 decoding entry points; whatever decodes is validated, read through every getter, re-encoded (plain and validating, CBOR and JSON) and verified under every key kind and nil. A recovered panic, or a fatal crash of the receiving child, is the violation. Sweeps in every batch: truncation at every offset and substitution of every CBOR head byte of one message per kind x profile.",
+    note="Reach is what the fault kinds produce from real messages: much thinner than coverage-guided fuzzing, which is outside this technique and is not substituted (DESIGN.md says so). byz.tree / json.member are structure-aware mutation under a Byzantine-sender name.",
+    ref="DESIGN.md §4 C05")
+CHECKS["C06"] = dict(
+    engine="W-DEC",
+    technique=TECH + "resource-budget invariant per decode call (TotalAlloc delta, executed-statement count from woven yield points, wall clock) in a memory-capped child process, over truncation / inflated-length / nesting / padding faults",
+    text="Same receiving-side world as C05, measured: around every decode call the child records heap bytes allocated (budget 1 MiB + 1 KiB per input byte, as the property states), library statements executed (T2 yield points; budget 5e6 + 500 per input byte, a load-independent stand-in for the 5 s deadline) and wall time (5 s); the child runs under a 4 GiB address-space cap, and its death or a 120 s hang is attributed to the journalled delivery and replayed in a fresh child. Faults that matter: truncation at every offset, every length head inflated to 2^8..2^64-1, nesting up to 10^5 levels, messages padded to 64 KiB.",
+    note="Sampling of the input space through fault kinds, not fuzzing. The statement budget is my own proxy for the wall deadline; its constants are far above linear behaviour. Nothing about speed is claimed.",
+    ref="DESIGN.md §4 C06")
+
 NA = {
     "C01": "pure predicate of one claims-set: no history, fault, schedule or seam can change the verdict; deciding it needs an independent model over a value-class product space (input enumeration), which is not this technique",
     "C04": "CBOR acceptance/fidelity is a pure function of the input bytes, decided by an independent encoder over value classes; nothing for a scheduler or fault injector to own",
@@ -60,7 +73,7 @@ NA = {
     "C20": "envelope acceptance is a pure function of the input bytes, decided by enumerating envelope shapes with an independent encoder",
 }
 
-PENDING = {k: "claimed in DESIGN.md; its check is still under construction in this session and is therefore not registered yet" for k in ["C05","C06","C07","C16","C17"]}
+PENDING = {k: "claimed in DESIGN.md; its check is still under construction in this session and is therefore not registered yet" for k in ["C07","C16","C17"]}
 
 def main():
     checks = []
